@@ -243,7 +243,17 @@ INT_TYS = {"i8", "i16", "i32", "i64", "i128", "isize", "u8", "u16", "u32", "u64"
 def panic_sites(term):
     """syntactic census of the potential panic sites of a term, by the MIR edge kind they give rise to"""
     c = Counter()
-    for s in subterms(term):
+
+    def outside_closures(t):
+        # the body of a closure is a function of its own (its edges are in its own MIR body and are discharged there)
+        if isinstance(t, tuple):
+            yield t
+            if t and t[0] == "lambda":
+                return
+            for x in t:
+                for y in outside_closures(x):
+                    yield y
+    for s in outside_closures(term):
         if not isinstance(s, tuple) or not s:
             continue
         if s[0] == "call" and isinstance(s[1], str):
